@@ -25,6 +25,8 @@ def execute(case):
     e, c = L.build(case, case.get("seed", 0))
     in_dtypes = sorted({W.dtype_name(o.dtype) for p, k, o in W.walk_args(c.args, c.kwargs)
                         if k == "array" and o.dtype.kind in "fc"})
+    if c.first_call_overrides:          # "previous failed call": the same objects are first used in a call that fails
+        L.invoke(c, c.first_call_overrides)
     how, val = L.invoke(c)
     outs = []
     if how == "return":
